@@ -2,44 +2,8 @@
   DnsModel.Dispatch — text protocol between the Rust harness and the model (see DESIGN.md §5.1).
   Pure: `dispatch : String → String`.
 -/
-import DnsModel.Sector
+import DnsModel.Dump
 namespace Dns
-
-def hexVal (c : Char) : Option Nat :=
-  if '0' ≤ c ∧ c ≤ '9' then some (c.toNat - '0'.toNat)
-  else if 'a' ≤ c ∧ c ≤ 'f' then some (c.toNat - 'a'.toNat + 10)
-  else if 'A' ≤ c ∧ c ≤ 'F' then some (c.toNat - 'A'.toNat + 10)
-  else none
-
-def parseHexAux : List Char → Bytes → Option Bytes
-  | [], acc => some acc.reverse
-  | [_], _ => none
-  | a :: b :: rest, acc =>
-    match hexVal a, hexVal b with
-    | some x, some y => parseHexAux rest (UInt8.ofNat (x * 16 + y) :: acc)
-    | _, _ => none
-
-/-- "-" denotes the empty byte string -/
-def parseHex (s : String) : Option Bytes :=
-  if s == "-" then some [] else parseHexAux s.toList []
-
-def hexDigit (n : Nat) : Char :=
-  if n < 10 then Char.ofNat ('0'.toNat + n) else Char.ofNat ('a'.toNat + n - 10)
-
-def toHex (b : Bytes) : String :=
-  if b.isEmpty then "-" else
-  String.ofList (b.foldr (fun x acc => hexDigit (x.toNat / 16) :: hexDigit (x.toNat % 16) :: acc) [])
-
-def fmtOpt (o : Option Nat) : String := match o with | none => "-" | some n => toString n
-
-def fmtRes {α} (f : α → String) : Res α → String
-  | .ok a => "ok " ++ f a
-  | .err e => "err " ++ e.name
-  | .panic => "panic"
-  | .diverge => "diverge"
-
-def fmtView (v : View) : String :=
-  s!"q={fmtOpt v.offsetQuestion} an={fmtOpt v.offsetAnswers} ns={fmtOpt v.offsetNameservers} ar={fmtOpt v.offsetAdditional} edns={fmtOpt v.offsetEdns} cnt={v.ednsCount} rc={fmtOpt v.extRcode} ver={fmtOpt v.ednsVersion} fl={fmtOpt v.extFlags} mp={v.maxPayload}"
 
 /-- cursor script: `set n`, `inc n`, `rdlen`, `ednsrdlen` — one result per step, then the offset -/
 def cursorSteps (p : Bytes) : List String → Sector → List String → String
@@ -70,6 +34,22 @@ def dispatchWords : List String → String
   | ["checku", h, off] =>
     match parseHex h, off.toNat? with
     | some p, some o => fmtRes toString (checkUncompressedName p o)
+    | _, _ => "bad-args"
+  | ["iter", h] =>
+    match parseHex h with
+    | some p => (match parsePP p with
+        | .ok pp => iterDump pp
+        | r => "noparse " ++ fmtRes (fun _ => "") r)
+    | none => "bad-hex"
+  | ["summary", h] =>
+    match parseHex h with
+    | some p => (match parsePP p with
+        | .ok pp => summaryDump pp
+        | r => "noparse " ++ fmtRes (fun _ => "") r)
+    | none => "bad-hex"
+  | ["hdr", h, ext, setter, arg] =>
+    match parseHex h, arg.toNat? with
+    | some p, some a => hdrOp p ext.toNat? setter a
     | _, _ => "bad-args"
   | "cursor" :: h :: steps =>
     match parseHex h with
